@@ -5,6 +5,7 @@ header of `harness/src/dplive.rs`.  Oracle `C07` at the end.
 -/
 import ProfiVerif.Driver.Dp
 import ProfiVerif.Model.Dp.Live
+import ProfiVerif.Model.Dp.LiveN
 
 namespace PV.Driver
 open PV PV.Dp PV.Live
@@ -113,7 +114,7 @@ def dlStepCase (j : Joint) (w : List String) : Option (Option Joint × String) :
     | none => none
   | _ => none
 
-def stepDpLive (st : Option Joint) (w : List String) : Option Joint × String :=
+def stepDpLive1 (st : Option Joint) (w : List String) : Option Joint × String :=
   match w with
   | "dl.new" :: args =>
     match dlNew args with
@@ -127,6 +128,126 @@ def stepDpLive (st : Option Joint) (w : List String) : Option Joint × String :=
       match dlStepCase j w with
       | none => (st, "bad-op")
       | some (j', o) => (j', o)
+
+/-! ### Several peripherals (`dn.*`) -/
+
+def dnSummary (j : JointN) : String :=
+  let rec go (i : Nat) : List Slave → String
+    | [] => ""
+    | s :: rest =>
+      (match j.m.peripheral? i with
+       | some p =>
+         s!" [{i} run={dlBit p.isRunning} live={dlBit p.isLive} i={bytesToHex p.piI} q={bytesToHex p.piQ} d={showLastDiag p.diag} | {dlShowSlave s}]"
+       | none => s!" [{i} ?]") ++ go (i + 1) rest
+  go 0 j.ss
+
+def dnPairs : List String → Option (List (Peripheral × Slave))
+  | [] => some []
+  | p :: s :: rest => do
+    let p ← parsePeriph p
+    let s ← dlParseSlave s
+    let r ← dnPairs rest
+    pure ((p, s) :: r)
+  | _ => none
+
+def dnAddAll (m : Master) : List Peripheral → Option Master
+  | [] => some m
+  | p :: r =>
+    match m.add p with
+    | .ok (m', _) => dnAddAll m' r
+    | .panic => none
+
+def dnNew (args : List String) : Option (Option JointN) :=
+  match args with
+  | own :: baud :: retry :: wd :: nslots :: rest => do
+    let own ← own.toNat?
+    if own ≥ 256 then none
+    let baud ← baud.toNat?
+    let retry ← retry.toNat?
+    if retry ≥ 256 then none
+    let wd ← optNat? wd
+    let k ← nslots.toNat?
+    let pairs ← dnPairs rest
+    if pairs.isEmpty then none
+    match buildParams own baud none (some retry) wd none with
+    | none => pure none
+    | some fp =>
+      match dnAddAll (Master.new k false) (pairs.map (·.1)) with
+      | none => pure none
+      | some m => pure (some { fp := fp, m := m.enterOperate, ss := pairs.map (·.2) })
+  | _ => none
+
+def dnSlot? (j : JointN) (s : String) : Option Nat :=
+  match s.toNat? with
+  | some i => if i < j.ss.length then some i else none
+  | none => none
+
+def dnSetSlave (j : JointN) (i : Nat) (f : Slave → Slave) : JointN :=
+  { j with ss := j.ss.set i (f (j.ss.getD i default)) }
+
+def dnStepCase (j : JointN) (w : List String) : Option (Option JointN × String) :=
+  let ok := fun (j : JointN) (o : String) => some (some j, s!"{o} ;{dnSummary j}")
+  match w with
+  | "dn.turn" :: now :: mid :: d =>
+    let mid? : Option (Option Nat) := if mid = "-" then some none else (dnSlot? j mid).map some
+    match intOf? now, mid?, dlParseDelivery d with
+    | some now, some mid, some del =>
+      match j.turn now mid del with
+      | .panic => some (none, "panic")
+      | .hang => some (none, "hang")
+      | .ok j' o =>
+        let (m', e) := j'.m.takeLastEvents
+        let ev := match e.peripheral with
+          | none => "-"
+          | some h => s!"{h.index}:{eventName h.ev}"
+        let tx := match o.tx with | some bs => bytesToHex bs | none => "-"
+        let got := match o.delivered with | some t => showTelegram t | none => "-"
+        ok { j' with m := m' }
+          s!"tx={tx} exp={showOptU8 o.expect} seen={dlBit o.seen} rep={dlShowReply o.reply} got={got} ev={dlBit e.cycleCompleted}:{ev}"
+    | _, _, _ => none
+  | ["dn.power", i] => (dnSlot? j i).bind fun i => ok (dnSetSlave j i Slave.power) "ok"
+  | ["dn.fault", i, hex] =>
+    match dnSlot? j i, hexToBytes hex with
+    | some i, some ext => ok (dnSetSlave j i (·.reportFault ext)) "ok"
+    | _, _ => none
+  | ["dn.diagreq", i] => (dnSlot? j i).bind fun i => ok { j with m := (j.m.requestDiagnostics i).getD j.m } "ok"
+  | ["dn.piq", i, hex] =>
+    match dnSlot? j i, hexToBytes hex with
+    | some i, some bs => ok { j with m := (j.m.writePiQ i bs).getD j.m } "ok"
+    | _, _ => none
+  | ["dn.inputs", i, hex] =>
+    match dnSlot? j i, hexToBytes hex with
+    | some i, some bs => ok (dnSetSlave j i (·.setInputs bs)) "ok"
+    | _, _ => none
+  | _ => none
+
+def stepDpLiveN (st : Option JointN) (w : List String) : Option JointN × String :=
+  match w with
+  | "dn.new" :: args =>
+    match dnNew args with
+    | none => (st, "bad-op")
+    | some none => (none, "panic")
+    | some (some j) => (some j, s!"ok ;{dnSummary j}")
+  | _ =>
+    match st with
+    | none => (none, "dead")
+    | some j =>
+      match dnStepCase j w with
+      | none => (st, "bad-op")
+      | some (j', o) => (j', o)
+
+/-- State of the `dplive` model driver: the single-peripheral case and the multi-peripheral case. -/
+structure DlState where
+  one : Option Joint := none
+  many : Option JointN := none
+
+def stepDpLive (st : DlState) (w : List String) : DlState × String :=
+  if (w.headD "").startsWith "dn." then
+    let r := stepDpLiveN st.many w
+    ({ st with many := r.1 }, r.2)
+  else
+    let r := stepDpLive1 st.one w
+    ({ st with one := r.1 }, r.2)
 
 /-! ### Oracle C07
 
@@ -154,6 +275,13 @@ structure O7 where
   /-- consecutive requests to the slave without a delivered reply -/
   unanswered : Nat := 0
   dead : Bool := true
+  /-- several peripherals (`dn.*`): their number and the life cycle per slot -/
+  n : Nat := 1
+  lcs : List Nat := []
+  deadN : Bool := true
+  quietN : Nat := 0
+  limitN : Nat := 1
+  matchedN : Bool := false
   deriving Repr, Inhabited
 
 def o7Field (key : String) (obs : String) : Option String :=
@@ -168,8 +296,75 @@ def o7Matched (periph slave : String) : Bool :=
     (match hexToBytes sinp, sil.toNat? with | some b, some n => b.length == n | _, _ => false)
   | _, _ => false
 
+def o7LcStep (lc : Nat) (ev : String) : Option Nat :=
+  match lc, ev with
+  | 0, "Online" => some 1
+  | 1, "Configured" => some 2
+  | 1, "Offline" => some 0
+  | 1, "ParameterError" => some 0
+  | 1, "ConfigError" => some 0
+  | 2, "Configured" => some 2
+  | 2, "DataExchanged" => some 2
+  | 2, "Diagnostics" => some 2
+  | 2, "Offline" => some 0
+  | 2, "ParameterError" => some 0
+  | 2, "ConfigError" => some 0
+  | _, _ => none
+
+def o7Pairs : List String → Bool
+  | [] => true
+  | p :: s :: rest => o7Matched p s && o7Pairs rest
+  | _ => false
+
+/-- The `dn.*` half of the oracle: `live` — all peripherals running after
+`(max_retry_limit + 8)(n + 1) + n` fault-free non-broadcast turns (`C07.multi_live_from_everywhere`) and
+ever after; `order` — per slot life cycle. -/
+def oracleC07N (st : O7) (w : List String) (obs : String) : O7 × Option (String × String) :=
+  match w with
+  | "dn.new" :: _ :: _ :: retry :: _ :: _ :: rest =>
+    if obs.startsWith "ok" then
+      let n := rest.length / 2
+      ({ st with n := n, lcs := List.replicate n 0, deadN := false, quietN := 0,
+                 limitN := (retry.toNat?).getD 1, matchedN := o7Pairs rest }, none)
+    else ({ st with deadN := true }, none)
+  | _ =>
+    if st.deadN then (st, none) else
+    if !(obs.startsWith "tx=" || obs.startsWith "ok") then ({ st with deadN := true }, none) else
+    let segs := (obs.splitOn " [").drop 1
+    let runs := segs.map fun sg => o7Field "run=" sg == some "1"
+    let lives := segs.map fun sg => o7Field "live=" sg == some "1"
+    match w with
+    | "dn.turn" :: _ :: mid :: d =>
+      let tx := (o7Field "tx=" obs).getD "-"
+      let exp := (o7Field "exp=" obs).getD "-"
+      let isGc := tx != "-" && exp == "-"
+      let faultFree := mid == "-" && d == ["ok"]
+      let quiet := if !faultFree then 0 else if isGc then st.quietN else st.quietN + 1
+      let evw := match (o7Field "ev=" obs).map (·.splitOn ":") with
+        | some [_, slot, e] => some (slot.toNat?.getD 0, e)
+        | _ => none
+      let (lcs', bad) := match evw with
+        | none => (st.lcs, none)
+        | some (slot, e) =>
+          match o7LcStep (st.lcs.getD slot 0) e with
+          | some v => (st.lcs.set slot v, none)
+          | none => (st.lcs, some s!"order: event {e} of slot {slot} in life-cycle state {st.lcs.getD slot 0}")
+      let st' := { st with quietN := quiet, lcs := lcs' }
+      match bad with
+      | some why => (st', some ("C07", why))
+      | none =>
+        let okLive := (List.range st.n).all fun i => (lives.getD i false) == (lcs'.getD i 0 != 0)
+        let okRun := (List.range st.n).all fun i => !(runs.getD i false) || lcs'.getD i 0 == 2
+        if !okLive then (st', some ("C07", "order: is_live disagrees with the life cycle of a slot"))
+        else if !okRun then (st', some ("C07", "order: is_running outside the configured life-cycle state"))
+        else if st.matchedN && quiet ≥ (st.limitN + 8) * (st.n + 1) + st.n && !(runs.all id && runs.length == st.n) then
+          (st', some ("C07", s!"live: not all peripherals running after {quiet} fault-free turns"))
+        else (st', none)
+    | _ => ({ st with quietN := 0 }, none)
+
 def oracleC07 (st : O7) (op obs : String) : O7 × Option (String × String) :=
   let w := splitWords op
+  if (w.headD "").startsWith "dn." then oracleC07N st w obs else
   match w with
   | ["dl.new", _, _, retry, _, _, periph, slave] =>
     if obs.startsWith "ok" then
